@@ -41,7 +41,8 @@ func init() {
 				np, nc = 3000, 800
 			}
 			cases := []Case{}
-			metaTexts := []string{"hello", "la la", "x", "A: b", "é♭ü", "1", "- dash", "# hash", "'q'", "\"dq\"", "a\\b", "[x]", "null", "true", "~", "日本語", "emoji 🎵", "tab\there", "colon:", "@at", "&amp", "*star", "!bang", "%pct", "|pipe", ">gt", "? q", "trail "}
+			metaTexts := []string{"hello", "la la", "x", "A: b", "é♭ü", "1", "- dash", "# hash", "'q'", "\"dq\"", "a\\b", "[x]", "null", "true", "~", "日本語", "emoji 🎵", "tab\there", "colon:", "@at", "&amp", "*star", "!bang", "%pct", "|pipe", ">gt", "? q", "trail ",
+				"the end\n\n\n", "first\r\nsecond", ";-) intro", "line1\nline2\n", ";", "a ;b", "x\r"}
 			for i := 0; i < np; i++ {
 				p := randomProg(rng, 8, 0.2, 15)
 				for j := range p {
@@ -124,6 +125,11 @@ func init() {
 					fl = randomFlags(rng, 0.6)
 				}
 				cases = append(cases, Case{"cmd": "cmt", "doc": randomDoc(rng, o), "flags": fl})
+			}
+			// free texts through `write conv | write`: what comes out of the text events is what was written (one record per text)
+			for _, t := range []string{"hello", "the end\n\n\n", "a\nb", "first\r\nsecond", "x\r", " lead", "trail ", "\ttab", "- dash", "# hash", "'q'", "\"dq\"", "a: b", "[x]", "{y}", "null", "~", "true", "1.0", "0x10",
+				"|", ">", "|+", "&a", "*a", "!t", "%p", "@a", "`b", "?", ":", "日本語 🎵", "\u00a0", "\u2028", "\u0085", "é", "\n", "\n\n", " \n", "\r\n", "\t", " ", "a\u0000b", "\u001b[0m", "\ufeffx"} {
+				cases = append(cases, Case{"cmd": "textrt", "text": t})
 			}
 			// a piece whose instances YAML is larger than a mebibyte goes through the pipe whole
 			cases = append(cases, Case{"cmd": "bigpipe", "n": 24000})
@@ -242,6 +248,32 @@ func init() {
 					}
 				}
 				return []Rec{rec}
+			case "textrt":
+				t := cs(k, "text")
+				q := yamlQuoted(t)
+				y := "- values: [\"1\"]\n  meta:\n    txt: " + q + "\n    lic: " + q + "\n- chord: {degree: \"1\", name: \"\"}\n  values: [\"1\"]\n  meta:\n    mrk: " + q + "\n"
+				texts := func(b []byte) ([][]int, bool) {
+					f := smf.Parse(b)
+					out := [][]int{}
+					for _, e := range f.Events {
+						if e.Kind == smf.KindMeta && (e.A == 1 || e.A == 5 || e.A == 6) {
+							out = append(out, append([]int{e.A}, e.Data...))
+						}
+					}
+					return out, f.Err == "" && len(b) > 0
+				}
+				r0 := c.crd([]string{"write"}, []byte(y))
+				direct, ok0 := texts(r0.Stdout)
+				r1 := c.crd([]string{"write", "parse"}, []byte(y))
+				r2 := c.crd([]string{"write", "conv", "-c", "cmt"}, []byte(y))
+				rec := Rec{"kind": "textrt", "sub": fmt.Sprintf("%q", t), "text": bytesOf([]byte(t)), "onlyBreaks": strings.Trim(t, "\r\n") == "" && t != "", "directOk": ok0 && r0.Exit == 0, "direct": direct,
+					"convOk": r2.Exit == 0 && len(r2.Stdout) > 0, "parseOk": r1.Exit == 0 && len(r1.Stdout) > 0, "viaConvOk": false, "viaConv": [][]int{}}
+				if rec["convOk"] == true {
+					r3 := c.crd([]string{"write"}, r2.Stdout)
+					via, ok3 := texts(r3.Stdout)
+					rec["viaConvOk"], rec["viaConv"] = ok3 && r3.Exit == 0, via
+				}
+				return []Rec{rec}
 			case "bigline":
 				n, how := ci(k, "n"), cs(k, "how")
 				long := strings.Repeat("x", n)
@@ -293,4 +325,26 @@ func init() {
 			return nil
 		},
 	})
+}
+
+// yamlQuoted writes s as a YAML double-quoted scalar with everything outside printable ASCII escaped (a raw U+0085 or
+// U+2028 inside the quotes would be a line break to YAML, folded into a blank)
+func yamlQuoted(s string) string {
+	var sb strings.Builder
+	sb.WriteByte('"')
+	for _, r := range s {
+		switch {
+		case r == '"' || r == '\\':
+			sb.WriteByte('\\')
+			sb.WriteRune(r)
+		case r >= 0x20 && r < 0x7f:
+			sb.WriteRune(r)
+		case r > 0xffff:
+			fmt.Fprintf(&sb, "\\U%08X", r)
+		default:
+			fmt.Fprintf(&sb, "\\u%04X", r)
+		}
+	}
+	sb.WriteByte('"')
+	return sb.String()
 }
